@@ -310,43 +310,60 @@ def run(chk, F, G_):
            "order" % sets_true, "src/featurechecker.cpp")
 
 
-def run_valuekind(chk, F, rid="R-VALUEKIND"):
+# get_value() sites whose guard is not a test on the path, confirmed by reading: (function, receiver) -> reason
+VALUEKIND_EXEMPT = {
+    ("checkExpression", "expr[0]"): "reached only with ok == true after `ok &= checkNrOfRuns(expr[0])`, and checkNrOfRuns "
+                                    "requires is_const_integer (re-checked: R-VALUEKIND:exempt|checkNrOfRuns)",
+    ("checkUntilCond", "untilCond"): "under `untilCond.get_kind() == BOOL`, which compares an expression kind with a type "
+                                     "kind and is never true (dead code)",
+}
+
+
+def run_valuekind(chk, F, rid="R-VALUEKIND", classes=(FC,)):
     """expression_t::get_value() is std::get<int32_t> on the node's value: it throws for a constant that holds a double
     (`x' == 1.5`) and is meaningless for a node that is no constant.  In the feature checker every get_value() must be
     reached only for an integer constant."""
-    from ..inline import sites_with_conditions, strip
-    chk.rule(rid, "every expression_t::get_value() in FeatureChecker is reached only on a path that has established, for "
-                  "the same expression, kind == CONSTANT and an integral (non-double) type")
+    from ..inline import sites_with_conditions, strip, flatten_conds
+    chk.rule(rid, "every expression_t::get_value() in %s is reached only on a path that has established, for the same "
+                  "expression, kind == CONSTANT and an integral (non-double) type (directly, or with is_const_integer)" %
+             ", ".join(c.split("::")[-1] for c in classes))
     n = 0
+    used = set()
     for fn in F.functions.values():
-        if fn.get("cls") != FC or fn.get("body") is None:
+        if fn.get("cls") not in classes or fn.get("body") is None:
             continue
         for site, conds in sites_with_conditions(fn["body"], lambda x: x.get("k") == "call" and x.get("name") == "get_value"
                                                  and x.get("cls") == "UTAP::expression_t" and x.get("recv") is not None):
             r = short(site["recv"])
             is_const = is_int = False
-            for c, t in conds:
-                for z in walk(c):
-                    if z.get("k") == "bin" and z.get("op") in ("==", "!="):
-                        txt = short(z)
-                        if r + ".get_kind()" in txt and "CONSTANT" in txt:
-                            # `!=` with early exit (cond false) or `==` (cond true)
-                            c0, neg = strip(c), False
-                            if c0 is z and ((z["op"] == "==") == t):
-                                is_const = True
-                    if z.get("k") == "call" and z.get("name") in ("is_double", "is_integral", "is_integer") and \
-                            r + ".get_type()" in short(z.get("recv")):
-                        c0 = strip(c)
-                        if c0 is z:
-                            if z["name"] == "is_double" and not t:
-                                is_int = True
-                            if z["name"] != "is_double" and t:
-                                is_int = True
+            for z, t in flatten_conds(conds):
+                txt = short(z)
+                if z.get("k") == "bin" and z.get("op") in ("==", "!=") and r + ".get_kind()" in txt and "CONSTANT" in txt:
+                    if (z["op"] == "==") == t:
+                        is_const = True
+                if z.get("k") == "call" and z.get("name") == "is_const_integer" and z.get("args") and \
+                        r in short(z["args"][0]) and t:
+                    is_const = is_int = True
+                if z.get("k") == "call" and z.get("name") in ("is_double", "is_integral", "is_integer") and \
+                        r + ".get_type()" in short(z.get("recv")):
+                    if (z["name"] == "is_double") != t:
+                        is_int = True
             n += 1
+            if not (is_const and is_int) and (fn["name"], r) in VALUEKIND_EXEMPT:
+                used.add((fn["name"], r))
+                chk.ob(rid, "%s|%s|listed" % (fn["name"], r), True, "", "%s:%s" % (fn["file"], site.get("l")),
+                       sample="%s: %s.get_value() - listed: %s" % (fn["name"], r, VALUEKIND_EXEMPT[(fn["name"], r)][:60]))
+                continue
             chk.ob(rid, "%s|%s" % (fn["name"], r), is_const and is_int,
-                   "%s calls %s.get_value() %s: for the valid invariant `x' == 1.5` the constant holds a double and "
-                   "std::get<int32_t> throws std::bad_variant_access out of the feature checker - no verdict at all" %
+                   "%s calls %s.get_value() %s: for a constant that holds a double (`x' == 1.5`, an update label `1.5`) "
+                   "std::get<int32_t> throws std::bad_variant_access - no verdict, no diagnostic, and the rest of the "
+                   "document is not checked" %
                    (fn["q"], r, "without having established that it is an integer constant" if is_const else
                     "without having established that it is a constant"), "%s:%s" % (fn["file"], site.get("l")))
     if n < 1:
-        raise AnalysisBroken("no get_value() call found in FeatureChecker")
+        raise AnalysisBroken("no get_value() call found in %s" % (classes,))
+    if ("checkExpression", "expr[0]") in used:
+        cn = [f for f in F.functions.values() if f.get("name") == "checkNrOfRuns" and f.get("body") is not None]
+        ok = bool(cn) and any(c.get("name") == "is_const_integer" for c in calls(cn[0]["body"]))
+        chk.ob(rid, "exempt|checkNrOfRuns", ok, "checkNrOfRuns no longer requires a constant integer, but "
+               "checkExpression reads expr[0].get_value() after it", "src/typechecker.cpp")
